@@ -25,7 +25,7 @@ def registrations(c, rng=None, order_seed=0):
         if c.exith[i]:
             items.append(("ex", "H", 0))
         for s, rr in sorted(c.react[i].items()):
-            if rr[0] in ("T", "H", "U"):
+            if rr[0] in ("T", "H", "U", "N"):
                 items.append(("u%d" % s, rr[0], rr[1] if rr[0] == "T" else 0))
         r.shuffle(items)            # registration order is arbitrary: to_code must sort it
         regs[i] = items
@@ -54,6 +54,8 @@ def build_template(c, regs, hsm, log, use_factory=False, name_handled=False, fns
                 return chart.trans(fns[tgt])
             if cbk == "H":
                 return return_status.HANDLED
+            if cbk == "N":
+                return None                 # the callback forgot its return statement
             return return_status.UNHANDLED
         cb.__name__ = "handled" if (name_handled and cbk == "H") else "cb_%d_%s_%s%d" % (i, kind, cbk, tgt)
         return cb
@@ -67,14 +69,28 @@ def build_template(c, regs, hsm, log, use_factory=False, name_handled=False, fns
         collaborator = Collaborator(hsm)
 
         def mk_cb(i, kind, cbk, tgt):  # noqa: F811
-            def method(self, e):
+            shape = (i * 7 + len(kind) + tgt) % 3
+
+            def body(self, e, more):
                 self.calls += 1
+                if more or not hasattr(e, "signal_name"):
+                    log.append((i, "called-with-wrong-arguments"))      # the handler of a collaborator takes the event, nothing else
+                    return return_status.UNHANDLED
                 log.append((i, kind))
                 if cbk == "T":
                     return self.chart.trans(fns[tgt])
                 if cbk == "H":
                     return return_status.HANDLED
                 return return_status.UNHANDLED
+            if shape == 0:
+                def method(self, e):
+                    return body(self, e, ())
+            elif shape == 1:
+                def method(self, e, *more):                 # tolerant signature
+                    return body(self, e, more)
+            else:
+                def method(self, e, option=None):           # optional second parameter
+                    return body(self, e, () if option is None else (option,))
             method.__name__ = "cb_%d_%s_%s%d" % (i, kind, cbk, tgt)
             setattr(Collaborator, method.__name__, method)
             return getattr(collaborator, method.__name__)
@@ -147,6 +163,21 @@ def run_build(c, regs, style, start, evs, name_handled=False):
                     other.next_rtc()
             except (mhsm.HsmTopologyException, Diverged):
                 pass
+        if style == "template-shared-other-tree":
+            # ANOTHER design uses (and has run) the same template state functions: same states, nested differently, own callbacks
+            r3 = random.Random(7919 * start + 31 * len(evs) + c.n)
+            c2 = charts.GenChart(c.n, charts.gen_tree(r3, c.n, r3.choice([0.0, 0.3, 0.6, 0.88])), {i: dict(c.react[i]) for i in c.react}, {},
+                                 nsig=c.nsig)
+            other = charts.probed_class(mhsm.HsmWithQueues)()
+            shared, _ = build_template(c2, registrations(c2, order_seed=r3.randrange(1 << 30)), other, [], name_handled=False)
+            try:
+                for st0 in sorted(range(1, c.n + 1), key=lambda i: -c2.depth_of(i))[:2]:
+                    other.start_at(shared[st0])
+                    for n in evs + list(range(c.nsig)):
+                        other.post_fifo(charts.ev(n))
+                        other.next_rtc()
+            except (mhsm.HsmTopologyException, Diverged):
+                pass
         tfns, cbs = build_template(c, regs, hsm, log, name_handled=name_handled, fns=shared, bound=(style == "template-bound"))
         if style == "template-other-design":
             # a different chart whose states happen to have the same names is assembled afterwards on another object
@@ -155,7 +186,7 @@ def run_build(c, regs, style, start, evs, name_handled=False):
             other2 = charts.probed_class(mhsm.HsmWithQueues)()
             build_template(c2, registrations(c2, order_seed=r3.randrange(1 << 30)), other2, [], name_handled=False)
         texts = {i: hsm.to_code(tfns[i]) for i in tfns}
-        if style in ("template", "template-shared", "template-bound", "template-other-design"):
+        if style in ("template", "template-shared", "template-bound", "template-other-design", "template-shared-other-tree"):
             fns = tfns
         else:
             ns = {"spy_on": mhsm.spy_on, "return_status": return_status, "signals": signals}
@@ -207,7 +238,7 @@ def norm_(log, regs, name_handled):
     return [x for x in log if x not in h]
 
 
-def explore(run, n_random):
+def explore(run, n_random, none_rate=0.0):
     rng = run.rng
     lines, metas = [], []
     cases = []
@@ -216,6 +247,13 @@ def explore(run, n_random):
         start = rng.randrange(1, c.n + 1)
         evs = [rng.randrange(c.nsig) for _ in range(rng.randint(1, 6))]
         name_handled = rng.random() < 0.3
+        if rng.random() < none_rate:
+            # one callback returns no status: the chart is malformed, template build and hand-written build must both say so
+            i0 = rng.choice(c.path(start)) if rng.random() < 0.7 else rng.randrange(1, c.n + 1)
+            sg = rng.choice(evs)
+            c.react[i0][sg] = ("N",)
+            c.malformed = ("none", i0)
+            name_handled = False
         regs = registrations(c, order_seed=rng.randrange(1 << 30))
         cases.append((c, regs, start, evs, name_handled))
     results = []
@@ -224,6 +262,15 @@ def explore(run, n_random):
               "regs": {str(i): [list(x) for x in regs[i]] for i in regs}}
         hand = run_build(c, regs, "hand", start, evs)
         tmpl = run_build(c, regs, "template", start, evs, name_handled)
+        if getattr(c, "malformed", None):
+            run.traces_validated += 2
+            run.count("template chart with a callback that returns no status (%s)" % ("reached" if hand[2] else "not reached"))
+            if tmpl[0] != hand[0] or tmpl[1] != hand[1] or tmpl[2] != hand[2]:
+                run.violate("%s/template-callback-without-status" % getattr(run, "factory_key", "C17"),
+                            "a callback of state %d returns no status: the template chart ran %s and ended in %s (%s); the hand-written "
+                            "chart %s, %s (%s)" % (c.malformed[1], tmpl[0][:30], tmpl[1], tmpl[2], hand[0][:30], hand[1], hand[2]), cj)
+            run.case(cj, nontrivial=bool(hand[2]))
+            continue
         flat = run_build(c, regs, "flat", start, evs, name_handled)
         shar = run_build(c, regs, "template-shared", start, evs, name_handled)
         oth = run_build(c, regs, "template-other-design", start, evs, name_handled)
@@ -237,6 +284,13 @@ def explore(run, n_random):
             if bnd[0] != tmpl[0] or bnd[1] != tmpl[1] or bnd[2] != tmpl[2]:
                 run.violate("C17/bound-method-callbacks", "callbacks registered as bound methods of a collaborator object ran %s and ended in %s "
                             "(%s); the same callbacks as plain functions %s, %s (%s)" % (bnd[0][:30], bnd[1], bnd[2], tmpl[0][:30], tmpl[1], tmpl[2]), cj)
+        tre = run_build(c, regs, "template-shared-other-tree", start, evs, name_handled)
+        run.traces_validated += 1
+        if norm_(tre[0], regs, name_handled) != norm_(tmpl[0], regs, name_handled) or tre[1] != tmpl[1] or tre[2] != tmpl[2]:
+            run.violate("%s/shared-template-functions-other-nesting" % getattr(run, "factory_key", "C17"),
+                        "the template state functions are also used by another chart object that nests them differently (and ran "
+                        "first): this chart ran %s and ended in %s (%s); with fresh template functions %s, %s (%s)"
+                        % (tre[0][:30], tre[1], tre[2], tmpl[0][:30], tmpl[1], tmpl[2]), cj)
         run.traces_validated += 4
         if norm_(shar[0], regs, name_handled) != norm_(tmpl[0], regs, name_handled) or shar[1] != tmpl[1] or shar[2] != tmpl[2]:
             run.violate("C17/shared-template-functions", "a second chart using the same template state functions with its own callbacks ran %s "
@@ -289,7 +343,7 @@ def replay(case):
     cc = case.get("case", case)
     c = charts.GenChart.from_json(cc["chart"])
     regs = {int(i): [tuple(x) for x in v] for i, v in cc["regs"].items()}
-    for style in ("hand", "template", "flat", "template-shared", "template-bound", "template-other-design"):
+    for style in ("hand", "template", "flat", "template-shared", "template-bound", "template-other-design", "template-shared-other-tree"):
         r = run_build(c, regs, style, cc["start"], cc["events"], cc.get("name_handled", False))
         print(style, r[:3])
     return 0
